@@ -52,14 +52,21 @@ func modulePath(dir string) (string, error) {
 }
 
 func main() {
-	stub := false
+	stub, dense := false, false
 	args := os.Args[1:]
-	if len(args) > 0 && args[0] == "-stub" {
-		stub = true
+	for len(args) > 0 && strings.HasPrefix(args[0], "-") {
+		switch args[0] {
+		case "-stub":
+			stub = true
+		case "-dense":
+			// a yield before EVERY statement, and lock bookkeeping: the scheduler
+			// must not switch tasks while the running one holds a mutex
+			dense = true
+		}
 		args = args[1:]
 	}
 	if len(args) != 1 {
-		fmt.Fprintln(os.Stderr, "usage: instrument [-stub] <dir>")
+		fmt.Fprintln(os.Stderr, "usage: instrument [-stub] [-dense] <dir>")
 		os.Exit(2)
 	}
 	root := args[0]
@@ -187,9 +194,113 @@ func main() {
 		for _, d := range f.Decls {
 			walk(d)
 		}
+		if dense {
+			hookCall := func(name string) ast.Stmt {
+				return &ast.ExprStmt{X: &ast.CallExpr{Fun: &ast.SelectorExpr{X: ast.NewIdent("zzsimhook"), Sel: ast.NewIdent(name)}}}
+			}
+			isYield := func(st ast.Stmt) bool {
+				es, ok := st.(*ast.ExprStmt)
+				if !ok {
+					return false
+				}
+				ce, ok := es.X.(*ast.CallExpr)
+				if !ok {
+					return false
+				}
+				se, ok := ce.Fun.(*ast.SelectorExpr)
+				if !ok {
+					return false
+				}
+				id, ok := se.X.(*ast.Ident)
+				return ok && id.Name == "zzsimhook"
+			}
+			method := func(st ast.Stmt) (string, int) {
+				es, ok := st.(*ast.ExprStmt)
+				if !ok {
+					return "", 0
+				}
+				ce, ok := es.X.(*ast.CallExpr)
+				if !ok {
+					return "", 0
+				}
+				se, ok := ce.Fun.(*ast.SelectorExpr)
+				if !ok {
+					return "", 0
+				}
+				return se.Sel.Name, len(ce.Args)
+			}
+			generated := map[*ast.BlockStmt]bool{}
+			var rewrite func(list []ast.Stmt, pos token.Pos) []ast.Stmt
+			rewrite = func(list []ast.Stmt, pos token.Pos) []ast.Stmt {
+				var out []ast.Stmt
+				for _, st := range list {
+					if isYield(st) {
+						out = append(out, st)
+						continue
+					}
+					if ds, ok := st.(*ast.DeferStmt); ok {
+						if se, ok := ds.Call.Fun.(*ast.SelectorExpr); ok && (se.Sel.Name == "Unlock" || se.Sel.Name == "RUnlock") && len(ds.Call.Args) == 0 {
+							// defer mu.Unlock()  ->  defer func() { zzsimhook.Unlocked(); mu.Unlock() }()
+							body := &ast.BlockStmt{List: []ast.Stmt{hookCall("Unlocked"), &ast.ExprStmt{X: ds.Call}}}
+							generated[body] = true // do not instrument the wrapper itself
+							ds.Call = &ast.CallExpr{Fun: &ast.FuncLit{Type: &ast.FuncType{Params: &ast.FieldList{}}, Body: body}}
+						}
+					}
+					name, nargs := method(st)
+					out = append(out, mk("stmt", st.Pos()))
+					switch {
+					case (name == "Lock" || name == "RLock") && nargs == 0:
+						out = append(out, st, hookCall("Locked"))
+					case (name == "Unlock" || name == "RUnlock") && nargs == 0:
+						out = append(out, hookCall("Unlocked"), st, mk("unlock", st.Pos()))
+					case name == "Do" && nargs == 1: // sync.Once: the callback runs under the Once's own mutex
+						out = append(out, hookCall("Locked"), st, hookCall("Unlocked"))
+					default:
+						out = append(out, st)
+					}
+				}
+				return out
+			}
+			skip := map[*ast.BlockStmt]bool{} // bodies that hold case clauses, not statements
+			ast.Inspect(f, func(n ast.Node) bool {
+				switch v := n.(type) {
+				case *ast.SwitchStmt:
+					skip[v.Body] = true
+				case *ast.TypeSwitchStmt:
+					skip[v.Body] = true
+				case *ast.SelectStmt:
+					skip[v.Body] = true
+				}
+				return true
+			})
+			ast.Inspect(f, func(n ast.Node) bool {
+				switch v := n.(type) {
+				case *ast.BlockStmt:
+					if skip[v] || generated[v] {
+						return true
+					}
+					v.List = rewrite(v.List, v.Pos())
+				case *ast.CaseClause:
+					v.Body = rewrite(v.Body, v.Pos())
+				case *ast.CommClause:
+					v.Body = rewrite(v.Body, v.Pos())
+				}
+				return true
+			})
+		}
 		if next == before {
 			continue
 		}
+		// free-floating comments inside bodies confuse the printer once
+		// position-less statements are inserted next to them: keep only the file
+		// header (build constraints) and the doc comments hanging on declarations
+		var keep []*ast.CommentGroup
+		for _, cg := range f.Comments {
+			if cg.End() < f.Package {
+				keep = append(keep, cg)
+			}
+		}
+		f.Comments = keep
 		// add the import
 		imp := &ast.ImportSpec{Path: &ast.BasicLit{Kind: token.STRING, Value: strconv.Quote(hookImport)}}
 		gd := &ast.GenDecl{Tok: token.IMPORT, Specs: []ast.Spec{imp}}
@@ -229,6 +340,26 @@ func Yield(site int) {
 		h(site)
 	}
 }
+
+// LockHook is told when the running code has taken (+1) or is about to
+// release (-1) a mutex, so that the scheduler never parks a task that holds
+// one (dense instrumentation only).
+var LockHook func(delta int)
+
+func Locked() {
+	if h := LockHook; h != nil {
+		h(1)
+	}
+}
+
+func Unlocked() {
+	if h := LockHook; h != nil {
+		h(-1)
+	}
+}
+
+// Dense reports statement-level yield points.
+const Dense = ` + strconv.FormatBool(dense) + `
 `
 	if err := os.WriteFile(filepath.Join(hd, "zzsimhook.go"), []byte(src), 0o644); err != nil {
 		fmt.Fprintln(os.Stderr, "instrument:", err)
